@@ -3,6 +3,9 @@ package main
 // Self-contained operations on the exported sub-structures and helpers.
 
 import (
+	"fmt"
+	"strconv"
+
 	"github.com/pion/rtcp"
 )
 
@@ -148,7 +151,14 @@ func unitOp(res *opResult, kind int, seed uint64) {
 		}
 		buf := make([]byte, longest)
 		typed := r.chance(3)
-		for _, g := range grams {
+		// Receiver reuse (typed decoding only): one packet object per kind is decoded into again and again, the way
+		// a receive loop avoids allocations; now and then it has held an unrelated packet of the kind before.  What
+		// the object then encodes to, lists and prints may depend on the last datagram only (clause c: every call
+		// history on one packet), exactly like a fresh object decoded from the same octets.
+		var pr rtcp.Packet
+		prKind := -1
+		preload := r.u64()
+		for gi, g := range grams {
 			copy(buf, g)
 			in := buf[:len(g):len(g)]
 			fresh := append([]byte(nil), g...)
@@ -171,6 +181,36 @@ func unitOp(res *opResult, kind int, seed uint64) {
 			})
 			if len(res.parts) != nparts {
 				continue // a decoder panicked (recorded): the second decode of the pair never ran
+			}
+			if typed {
+				k := dispatchKind(fresh)
+				var e3 error
+				var o2, o3 string
+				guarded(res, func() {
+					if k != prKind {
+						pr, prKind = newOfKind(k), k
+						if preload>>uint(gi)&1 == 1 {
+							if pe, err := vopUnitMarshal(genPacket(k, preload|seed&narrowBit)); err == nil && len(pe) > 0 {
+								_ = vopUnmarshalTyped(pr, append([]byte(nil), pe...))
+							}
+						}
+					}
+					p2 := newOfKind(k)
+					e2b := vopUnmarshalTyped(p2, append([]byte(nil), g...))
+					e3 = vopUnmarshalTyped(pr, append([]byte(nil), g...))
+					if e2b == nil && e3 == nil {
+						o2, o3 = observe(p2), observe(pr)
+					} else {
+						o2, o3 = "error == nil: "+boolText(e2b == nil), "error == nil: "+boolText(e3 == nil)
+					}
+				})
+				if len(res.parts) != nparts {
+					continue
+				}
+				if !res.incons && o2 != o3 {
+					res.incons = true
+					res.pre, res.post = kindNames[k]+" "+hexString(g)+" decoded into a fresh object: "+o2, "decoded into an object that held an earlier packet: "+o3
+				}
 			}
 			res.addDump(d1)
 			res.addErr(e1)
@@ -273,4 +313,15 @@ func nackOp(res *opResult, seed uint64) {
 	}
 	np := rtcp.NackPair{PacketID: r.u16(), LostPackets: rtcp.PacketBitmap(r.u16())}
 	res.addDump(dumpSem(np.PacketList(), false))
+}
+
+// observe renders what a decoded packet does: its encoding, size, SSRC list and text.
+func observe(p rtcp.Packet) string {
+	b, err := vopUnitMarshal(p)
+	// (no fmt here: its printer pool would order the tasks for the race detector)
+	out := "Marshal=" + hexString(b) + " err=" + boolText(err != nil) + " MarshalSize=" + strconv.Itoa(vopMarshalSize(p)) + " DestinationSSRC=" + u32String(vopDestinationSSRC(p))
+	if st, ok := p.(fmt.Stringer); ok {
+		out += " String=" + stripAddrs(vopString(st))
+	}
+	return out
 }
